@@ -757,4 +757,7 @@ func main() {
 	manySameNamed(c)
 	scale(c)
 	sequences(c, reg)
+	twoPaths(c)
+	nameCollide(c)
+	sequencesInit(c, reg)
 }
